@@ -221,7 +221,7 @@ theorem emitInv_handleMsgs (ms : List Msg) (e : Ep) (hi : EmitInv e) : EmitInv (
     unfold handleMsgs
     split
     · exact hi
-    · exact ih _ (emitInv_handleMsg e m hi)
+    · exact ih _ (emitInv_handleMsg _ m (emitInv_of_view (e := e) rfl hi))
 
 theorem emitInv_recvRaw (e : Ep) (c : Bytes) (hi : EmitInv e) : EmitInv (recvRaw e c).1 := by
   unfold recvRaw
